@@ -1780,6 +1780,14 @@ func (c *Ctx) dependsOnIndexPath(v ssa.Value, depth int) bool {
 				return true
 			}
 		}
+		// a package helper given the field as a whole, which reads its index path
+		if callee := x.Call.StaticCallee(); callee != nil && c.P.InPkg(callee) {
+			for k, a := range x.Call.Args {
+				if isNamed(a.Type(), "reflect", "StructField") && k < len(callee.Params) && c.readsIndexOf(callee.Params[k], 3) {
+					return true
+				}
+			}
+		}
 	case *ssa.BinOp:
 		return c.dependsOnIndexPath(x.X, depth-1) || c.dependsOnIndexPath(x.Y, depth-1)
 	case *ssa.UnOp:
@@ -1802,6 +1810,52 @@ func (c *Ctx) dependsOnIndexPath(v ssa.Value, depth int) bool {
 		return c.dependsOnIndexPath(x.Tuple, depth-1)
 	}
 	return false
+}
+
+// readsIndexOf: the function of parameter p (a reflect.StructField) reads p.Index, itself or by passing p on.
+func (c *Ctx) readsIndexOf(p *ssa.Parameter, depth int) bool {
+	if depth == 0 {
+		return false
+	}
+	found := false
+	for _, f := range core.WithAnon(p.Parent()) {
+		core.EachInstr(f, func(i ssa.Instruction) {
+			switch x := i.(type) {
+			case *ssa.Field:
+				if core.CanonFieldOf(x.X.Type(), x.Field) == "Index" && isNamed(x.X.Type(), "reflect", "StructField") {
+					for _, src := range append(traceSources(x.X), x.X) {
+						if src == ssa.Value(p) {
+							found = true
+						}
+					}
+				}
+			case *ssa.FieldAddr:
+				if core.CanonFieldOf(x.X.Type(), x.Field) == "Index" && isNamed(derefType(x.X.Type()), "reflect", "StructField") {
+					// the spilled parameter
+					if al, ok := x.X.(*ssa.Alloc); ok {
+						for _, sv := range cellStores(al) {
+							if sv == ssa.Value(p) {
+								found = true
+							}
+						}
+					}
+				}
+			case *ssa.Call:
+				if callee := x.Call.StaticCallee(); callee != nil && c.P.InPkg(callee) {
+					for k, a := range x.Call.Args {
+						if k < len(callee.Params) && isNamed(a.Type(), "reflect", "StructField") {
+							for _, src := range append(traceSourcesDeep(a), a) {
+								if src == ssa.Value(p) && c.readsIndexOf(callee.Params[k], depth-1) {
+									found = true
+								}
+							}
+						}
+					}
+				}
+			}
+		})
+	}
+	return found
 }
 
 type helperBound struct {
@@ -2225,5 +2279,98 @@ func ruleOmittedEmbedded(c *Ctx, rule string) {
 				fmt.Sprintf("the index path of the embedded field is remembered only where the tag parser does not omit the field (test at %v): for an embedded struct tagged `json:\"-\"` the promoted fields are then not skipped and become required properties that encoding/json never emits", bad))
 		}
 	})
+	// the same, with the path kept in a struct of its own: h.remember(field) stores field.Index in h, h.hides(field) tests it
+	c.eachFam(m.fn, func(i ssa.Instruction) {
+		site, ok := i.(*ssa.Call)
+		if !ok {
+			return
+		}
+		h := site.Call.StaticCallee()
+		if h == nil || !c.P.InPkg(h) || h == m.fn {
+			return
+		}
+		recvIdx, fld, ok := c.storesIndexPathIn(h)
+		if !ok || recvIdx >= len(site.Call.Args) {
+			return
+		}
+		state := site.Call.Args[recvIdx]
+		n++
+		var bad []string
+		for _, g := range controlGuards(site) {
+			if g.At.Parent() != site.Parent() || !g.At.Block().Dominates(site.Block()) {
+				continue
+			}
+			if mentionsStructFieldNamed(g.Cond, "omit", 4) && !g.Pol {
+				bad = append(bad, c.pos(g.At))
+			}
+		}
+		tested := false
+		for _, b := range site.Parent().Blocks {
+			ifi, isIf := b.Instrs[len(b.Instrs)-1].(*ssa.If)
+			if !isIf || !b.Dominates(site.Block()) {
+				continue
+			}
+			for _, v := range backSlice(ifi.Cond, 12) {
+				switch x := v.(type) {
+				case *ssa.Call:
+					g := x.Call.StaticCallee()
+					if g == nil || g == h || !c.P.InPkg(g) {
+						continue
+					}
+					for k, a := range x.Call.Args {
+						if a == state && k < len(g.Params) && c.loadsFieldOfParam(g.Params[k], fld) {
+							tested = true
+						}
+					}
+				case *ssa.UnOp:
+					if fa, ok := x.X.(*ssa.FieldAddr); ok && fa.X == state && fa.Field == fld {
+						tested = true
+					}
+				}
+			}
+		}
+		c.R.Check(tested, rule, fmt.Sprintf("%s:skip-path-assignment#%d:after-skip-test", core.FuncName(site.Parent()), n), c.pos(site), "the path is remembered only for a field that has itself passed the skip test",
+			"the index path of an embedded field is remembered before the test whether that field is itself promoted from a skipped embedded field: an embedded struct inside a tag-named (or overridden) embedded struct overwrites the outer path, and the remaining promoted fields of the outer one become properties of the enclosing struct, which encoding/json never emits there")
+		c.R.Check(len(bad) == 0, rule, fmt.Sprintf("%s:skip-path-assignment#%d", core.FuncName(site.Parent()), n), c.pos(site), "the path of an embedded field whose promoted fields are to be skipped is remembered whether or not the field itself is omitted",
+			fmt.Sprintf("the index path of the embedded field is remembered only where the tag parser does not omit the field (test at %v): for an embedded struct tagged `json:\"-\"` the promoted fields are then not skipped and become required properties that encoding/json never emits", bad))
+	})
 	c.R.Floor(rule, "assignments of an embedded field's index path", n, 1)
+}
+
+// storesIndexPathIn: h stores the Index of a reflect.StructField parameter into a []int field of a struct it has
+// through a pointer parameter. Returns the index of that pointer parameter and the field.
+func (c *Ctx) storesIndexPathIn(h *ssa.Function) (recv, field int, ok bool) {
+	core.EachInstr(h, func(i ssa.Instruction) {
+		st, isSt := i.(*ssa.Store)
+		if !isSt {
+			return
+		}
+		fa, isFA := st.Addr.(*ssa.FieldAddr)
+		if !isFA {
+			return
+		}
+		sl, isSlice := st.Val.Type().Underlying().(*types.Slice)
+		if !isSlice || !isIntType(sl.Elem()) || !c.mentionsNamedField(st.Val, "Index", 3) {
+			return
+		}
+		for k, p := range h.Params {
+			if fa.X == ssa.Value(p) {
+				recv, field, ok = k, fa.Field, true
+			}
+		}
+	})
+	return
+}
+
+// loadsFieldOfParam: the function of pointer parameter p reads field fld of *p.
+func (c *Ctx) loadsFieldOfParam(p *ssa.Parameter, fld int) bool {
+	found := false
+	core.EachInstr(p.Parent(), func(i ssa.Instruction) {
+		if ld, ok := i.(*ssa.UnOp); ok && ld.Op == token.MUL {
+			if fa, ok := ld.X.(*ssa.FieldAddr); ok && fa.X == ssa.Value(p) && fa.Field == fld {
+				found = true
+			}
+		}
+	})
+	return found
 }
